@@ -1,5 +1,7 @@
 import Convergen.Model.Builder
 import Convergen.Model.Render
+import Convergen.Model.Method
+import Convergen.Props.C08
 /-!
 # C05 — every reachable destination field is accounted for exactly once
 (the covering theorem proper — exactly once, at every depth — is in `Props/Cover.lean`,
@@ -46,5 +48,59 @@ theorem every_statement_renders (env : Env) (s : Stmt) : Stmt.toAssignments env 
   cases s with
   | simple l r e w => cases r <;> simp [Stmt.toAssignments]
   | _ => simp [Stmt.toAssignments]
+
+end Convergen.Props.C05
+
+namespace Convergen.Props.C05
+open Convergen
+
+/-- **the body of every generated function is a builder result**: what `CreateFunction` hands to the
+generator is either the single `no match` of non-struct operands or the result of `structToStruct`
+on the destination and source operands — so `Props/Cover` (exactly once), `Props/C02` (parallel
+assignment, frame) and `Props/Rooted` apply to the body of every function convergen generates. -/
+theorem function_body_from_builder (env : Env) (eng : Engine) (m : MethodEntry) (src dst : ParamVar)
+    (additional : List ParamVar) (srcVar dstVar : Var) (argVars : List Var) (b : Built)
+    (h : buildFunction env eng m src dst additional srcVar dstVar argVars = .ok b) :
+    (∃ l w, b.stmts = [.noMatch l w]) ∨
+    (∃ (ctx : BCtx) (fuel : Nat) (l r : Node) (args : List Node),
+        ctx.env = env ∧ ctx.opts = m.opts ∧ ctx.structToStruct fuel l r args = .ok b.stmts) := by
+  unfold buildFunction at h
+  simp only [bind, Outcome.bind, pure] at h
+  split at h
+  · rename_i stmts hd
+    have hst : b.stmts = stmts := by
+      split at h
+      · cases h; rfl
+      · cases h
+      · split at h
+        · cases h; rfl
+        · cases h
+        · cases h; rfl
+    rw [hst]
+    split at hd
+    · unfold BCtx.dispatch at hd
+      simp only at hd
+      split at hd
+      · exact Or.inr ⟨_, _, _, _, _, rfl, rfl, hd⟩
+      · cases hd; exact Or.inl ⟨_, _, rfl⟩
+    · unfold BCtx.dispatch at hd
+      simp only at hd
+      split at hd
+      · exact Or.inr ⟨_, _, _, _, _, rfl, rfl, hd⟩
+      · cases hd; exact Or.inl ⟨_, _, rfl⟩
+  · cases h
+  · cases h
+
+/-- the same for `CreateFunction` itself -/
+theorem createFunction_body_from_builder (env : Env) (eng : Engine) (m : MethodEntry) (built : List String) (b : Built)
+    (h : createFunction env eng m built = .ok b) :
+    (∃ l w, b.stmts = [.noMatch l w]) ∨
+    (∃ (ctx : BCtx) (fuel : Nat) (l r : Node) (args : List Node),
+        ctx.env = env ∧ ctx.opts = m.opts ∧ ctx.structToStruct fuel l r args = .ok b.stmts) := by
+  obtain ⟨src, dst, additional, srcVar, dstVar, argVars, hc⟩ := C08.createFunction_through_check env eng m b built h
+  unfold checkNamesAndBuild at hc
+  split at hc
+  · cases hc
+  · exact function_body_from_builder env eng m src dst additional srcVar dstVar argVars b hc
 
 end Convergen.Props.C05
